@@ -3,6 +3,7 @@ package nfa
 import (
 	"fmt"
 	"regexp/syntax"
+	"unicode"
 
 	"github.com/coregx/coregex/internal/conv"
 )
@@ -249,7 +250,7 @@ func (c *Compiler) compileLiteral(re *syntax.Regexp) (start, end StateID, err er
 
 	for _, r := range runes {
 		// For case-insensitive matching of ASCII letters, create alternation
-		if foldCase && isASCIILetter(r) {
+		if foldCase && unicode.SimpleFold(r) != r {
 			nextState, err := c.compileFoldCaseRune(r, prev, &first)
 			if err != nil {
 				return InvalidState, InvalidState, err
@@ -267,35 +268,41 @@ func (c *Compiler) compileLiteral(re *syntax.Regexp) (start, end StateID, err er
 	return first, prev, nil
 }
 
-// compileFoldCaseRune compiles a case-insensitive ASCII letter
-// by creating alternation between upper and lower case versions
+// compileFoldCaseRune compiles a case-insensitive rune as an alternation over its whole
+// simple case-folding orbit, as regexp does (k matches k, K and U+212A KELVIN SIGN; é matches É).
 func (c *Compiler) compileFoldCaseRune(r rune, prev StateID, first *StateID) (StateID, error) {
-	upper := toUpperASCII(r)
-	lower := toLowerASCII(r)
-
-	// Build UTF-8 sequences for both cases
-	upperStart, upperEnd, err := c.compileSingleRune(upper)
-	if err != nil {
-		return InvalidState, err
+	orbit := []rune{r}
+	for f := unicode.SimpleFold(r); f != r; f = unicode.SimpleFold(f) {
+		orbit = append(orbit, f)
 	}
-	lowerStart, lowerEnd, err := c.compileSingleRune(lower)
-	if err != nil {
-		return InvalidState, err
+	if isASCIILetter(r) {
+		// Keep the historical order for the ASCII pair: upper case first, then lower case.
+		orbit[0] = toUpperASCII(r)
+		for i := 1; i < len(orbit); i++ {
+			if orbit[i] == orbit[0] {
+				orbit[i] = toLowerASCII(r)
+			}
+		}
 	}
 
 	// Create join state
 	nextState := c.builder.AddEpsilon(InvalidState)
 
-	// Connect both paths to join
-	if err := c.builder.Patch(upperEnd, nextState); err != nil {
-		return InvalidState, err
-	}
-	if err := c.builder.Patch(lowerEnd, nextState); err != nil {
-		return InvalidState, err
+	// Build one UTF-8 byte chain per member of the orbit, all ending in the join state
+	starts := make([]StateID, 0, len(orbit))
+	for _, member := range orbit {
+		memberStart, memberEnd, err := c.compileSingleRune(member)
+		if err != nil {
+			return InvalidState, err
+		}
+		if err := c.builder.Patch(memberEnd, nextState); err != nil {
+			return InvalidState, err
+		}
+		starts = append(starts, memberStart)
 	}
 
-	// Create split state
-	split := c.builder.AddSplit(upperStart, lowerStart)
+	// Create split state(s)
+	split := c.buildSplitChain(starts)
 
 	if prev == InvalidState {
 		// First character - split becomes the start
